@@ -185,13 +185,73 @@ def h_bookkeeping(env, d):
     env.equal("inverse_clements(clements) == recorded factors", V, W)
 
 
-HARNESSES = {"clements_roundtrip": h_clements_roundtrip, "commute_angles": h_commute_angles, "nulling": h_nulling, "bookkeeping": h_bookkeeping}
+def _symbolic_decomposition(env, d, zeros=0):
+    """the mesh layout the library itself uses (clements of the identity) filled with free symbolic angles"""
+    from piquasso._simulators.connectors import NumpyConnector
+    dec = cl.clements(numpy.identity(d, dtype=complex), NumpyConnector())
+    for k, bs in enumerate(dec.beamsplitters):
+        # clements() emits the Python float 0.0 for a mixing angle it did not need (diagonal / block-diagonal inputs): the
+        # bit mask `zeros` says which mesh elements carry such a literal zero, the others are free symbols
+        zero = bool((zeros >> k) & 1)
+        bs.params = (0.0 if zero else env.param("th%d" % k), env.param("ph%d" % k))
+    for k, ps in enumerate(dec.phaseshifters):
+        ps.phi = env.param("phi%d" % k)
+    return dec
+
+
+def h_instruction_list(env, d, zeros=0):
+    """for ARBITRARY angles (incl. the theta == 0 / phi == 0 paths): the Phaseshifter / Beamsplitter list produced by
+    instructions_from_decomposition, composed through the real gate blocks, is the matrix inverse_clements reconstructs."""
+    conn = cm.connector(env)
+    cfg = cm.config(env)
+    dec = _symbolic_decomposition(env, d, zeros=zeros)
+    env.functions += [core.fn_ref(cl.instructions_from_decomposition), core.fn_ref(cl.inverse_clements)]
+    with cm.patched_np(env, cl):
+        ins = cl.instructions_from_decomposition(dec)
+        want = cl.inverse_clements(dec, conn, complex)
+    W = env.np.identity(d) if env.mode == "num" else xa.xnp.identity(d)
+    for inst in ins:
+        blk = inst._get_passive_block(conn, cfg)
+        W = cm.embed(env, blk, inst.modes, d) @ W
+    env.equal("instruction list == inverse_clements", W, want)
+    env.holds("one phaseshifter + one beamsplitter per mesh element, then the final phases", len(ins) == 2 * len(dec.beamsplitters) + len(dec.phaseshifters))
+
+
+def h_weights(env, d):
+    """weight-vector round trip: get_decomposition_from_weights(get_weights_from_decomposition(dec)) carries the SAME angle
+    values on the same modes, for arbitrary real angles (any magnitude, e.g. theta = pi/2 exactly or beyond)."""
+    conn = cm.connector(env)
+    dec = _symbolic_decomposition(env, d)
+    if env.mode == "sym":
+        for ps in dec.phaseshifters:
+            ps.phi = xa.xarr(numpy.array(ps.phi, dtype=object))        # the library reads .dtype of the first phase
+    else:
+        for ps in dec.phaseshifters:
+            ps.phi = numpy.float64(ps.phi)
+    env.functions += [core.fn_ref(cl.get_weights_from_decomposition), core.fn_ref(cl.get_decomposition_from_weights)]
+    with cm.patched_np(env, cl):
+        w = cl.get_weights_from_decomposition(dec, d, conn)
+        back = cl.get_decomposition_from_weights(w, d, conn)
+    env.holds("d^2 weights", len(w) == d * d)
+    for k, (a, b) in enumerate(zip(dec.beamsplitters, back.beamsplitters)):
+        env.holds("beamsplitter %d on the same modes" % k, tuple(a.modes) == tuple(b.modes))
+        env.equal("theta%d" % k, b.params[0], a.params[0])
+        env.equal("phi%d" % k, b.params[1], a.params[1])
+    for k, (a, b) in enumerate(zip(dec.phaseshifters, back.phaseshifters)):
+        env.holds("phaseshifter %d on the same mode" % k, a.mode == b.mode)
+        env.equal("final phase %d" % k, b.phi, a.phi)
+
+
+HARNESSES = {"instruction_list": h_instruction_list, "weights": h_weights, "clements_roundtrip": h_clements_roundtrip, "commute_angles": h_commute_angles, "nulling": h_nulling, "bookkeeping": h_bookkeeping}
 
 
 def instances(tier):
     out = [("commute_angles", {})]
     for d in (2, 3) if tier == "quick" else (2, 3, 4):
         out.append(("bookkeeping", {"d": d}))
+        for z in ((0, 1) if d == 2 else (0, 1, 2, 4, 7) if d == 3 else (0, 5, 63)):
+            out.append(("instruction_list", {"d": d, "zeros": z}))
+        out.append(("weights", {"d": d}))
         for column in range(d - 1):
             out.append(("nulling", {"d": d, "column": column}))
     if tier == "thorough":
